@@ -166,6 +166,15 @@ class SparselyBin(Factory, Container):
         out._emptyBinsName = self._binsName()
         return out
 
+    def _adoptBin(self, theirs):
+        """A bin that only the other side of a merge has: booked from this side's template, like a bin created by
+        ``fill``, so that it carries this side's sub-quantities and can still be filled."""
+        if self.value is None:
+            return theirs.copy()
+        mine = self.value.zero()
+        mine += theirs
+        return mine
+
     @inheritdoc(Container)
     def __add__(self, other):
         if isinstance(other, SparselyBin):
@@ -197,7 +206,7 @@ class SparselyBin(Factory, Container):
                 out.bins[i] = v + other.bins[i] if i in other.bins else v.copy()
             for i, v in other.bins.items():
                 if i not in out.bins:
-                    out.bins[i] = v.copy()
+                    out.bins[i] = self._adoptBin(v)
             return out.specialize()
 
         raise ContainerException(f"cannot add {self.name} and {other.name}")
@@ -222,7 +231,7 @@ class SparselyBin(Factory, Container):
                 if i in self.bins:
                     self.bins[i] += v
                 else:
-                    self.bins[i] = v.copy()
+                    self.bins[i] = self._adoptBin(v)
             self.nanflow += other.nanflow
             return self
         raise ContainerException(f"cannot add {self.name} and {other.name}")
